@@ -126,6 +126,9 @@ func (f *MakeArray) Call(s *slip.Scope, args slip.List, depth int) slip.Object {
 			fillPtr = -1
 		case slip.Fixnum:
 			fillPtr = int(to)
+			if len(dims) != 1 || fillPtr < 0 || dims[0] < fillPtr {
+				slip.TypePanic(s, depth, "fill-pointer", to, "integer between 0 and the size of the vector")
+			}
 		default:
 			if 0 < len(dims) {
 				fillPtr = dims[0]
